@@ -398,7 +398,8 @@ def c20_rsa(b0: Tuple[int, int, int], n0: int, b1: Tuple[int, int, int], n1: int
 def _sh_fa(tier):
     if tier == "quick":
         return product_pins(m=[2], starts=[3], finals=[2], l0=[0, 3], l1=[2, 4, 6])
-    return product_pins(m=[1, 2], starts=[3], finals=[2], l0=[0, 2, 3, 7, 8], l1=[1, 2, 4, 5, 6, 9])
+    return [p for p in product_pins(m=[1, 2], starts=[3], finals=[2], l0=[0, 2, 3, 7, 8], l1=[1, 2, 4, 5, 6, 9])
+            if p["l0"] != p["l1"]]      # two states need two different labels
 
 
 def _sh_pda(tier):
